@@ -74,6 +74,14 @@ def worker_env(root: str, tz: str = None, hashseed: int = 0) -> dict:
     return env
 
 
+def _short_sample(smp, cap=6000):
+    """a sample case as recorded, or - when it is a big one (thousands of events) - its head"""
+    text = json.dumps(smp, default=str)
+    if len(text) <= cap:
+        return smp
+    return dict(truncated=True, chars=len(text), head=text[:cap])
+
+
 def load_known():
     try:
         with open(KNOWN_FILE) as f:
@@ -187,7 +195,7 @@ def finish(pid, tier, seed, mod, plan, results, dead, wall):
         distinct_nontrivial=len(agg["sigs"]),
         nontrivial_cases=agg["nontrivial"],
         rule=getattr(mod, "RULE", ""),
-        samples=agg["samples"][:5] or [],
+        samples=[_short_sample(x) for x in agg["samples"][:5]] or [],
         counters=dict(sorted(agg["counters"].items())),
         inconclusive_cases=agg["inconclusive"],
         workers=len(results),
